@@ -25,12 +25,21 @@ def analyse(seed):
   out['kind'] = kind
   level = rng.choice([0.9, 0.8, 0.95, 0.6, 0.3])
   tails = rng.choice([1, 2])
-  m = fit_iroas(spec)
+  npre, ntest = spec['n_pre'], spec['n_test']
+  non_incr = sum(g['cost'][t] for g in spec['geos'] for t in range(npre)) + \
+      sum(g['cost'][t] for g in spec['geos'] if g['group'] == 1 for t in range(npre, npre + ntest))
+  is_fixed = abs(non_incr) < 1e-10            # the documented criterion, computed from the frame itself
+  r2 = random.Random(seed * 19 + 5)
+  history = None
+  if r2.random() < 0.4:                       # the object analysed an experiment of the other cost scenario before
+    history = tbrfam.gen_frame(seed + 91, cooldown=True, scenario='variable' if is_fixed else 'fixed')
+  out['reused'] = history is not None
+  m = fit_iroas(spec, history=history)
   for metric, tb, col in (('tbr_response', m.tbr_response, 'response'), ('tbr_cost', m.tbr_cost, 'cost')):
     dist = tb.causal_cumulative_distribution()
     scales = [float(v) for v in dist.kwds['scale']]
     locs = [float(v) for v in dist.kwds['loc']]
-    fixed_cost = metric == 'tbr_cost' and m._is_fixed_cost_scenario()
+    fixed_cost = metric == 'tbr_cost' and is_fixed
     try:
       ts = m.estimate_pointwise_and_cumulative_effect(metric=metric, level=level, tails=tails)
     except ValueError as e:
@@ -110,9 +119,10 @@ def run(tier):
         known[klass] = known.get(klass, 0) + 1
   ck.sample({'seed': res[0]['seed'], 'kind': res[0].get('kind')})
   ck.cov['rule'] = ('experiment frames with cooldown (only pre / test / cooldown periods), fixed or variable cost, one in four with a control '
-                    'spike on the first test date; both metrics; level in {.9,.8,.95,.6,.3} x tails; checks: report succeeds, bounds '
+                    'spike on the first test date; on a fresh object or (40%) one that analysed an experiment of the other cost scenario before; the cost scenario is decided from the frame, not by the implementation; both metrics; level in {.9,.8,.95,.6,.3} x tails; checks: report succeeds, bounds '
                     'ordered on every date, counterfactual + difference = observed, pre-period differences = residuals, last cumulative '
                     'row = posterior location and quantiles')
+  kinds['reused_object'] = sum(1 for o in res if o.get('reused'))
   ck.cov['distribution'] = kinds
   ck.cov['known_finding_observations'] = known
   return ck.finish('proof', TRUSTED)
